@@ -509,6 +509,21 @@ func (g *Gen) collectSelectors() {
 			walk(a)
 		}
 	}
+	// history mentioned by the creation-time conditions of this function's closures
+	for _, cc := range g.eng.contracts {
+		if cc.Closure == nil || len(cc.Created) == 0 {
+			continue
+		}
+		if fn, err := g.eng.resolveClosure(cc); err == nil && fn != nil {
+			for p := fn.Parent(); p != nil; p = p.Parent() {
+				if p == g.fn {
+					for _, cl := range cc.Created {
+						walk(cl.E)
+					}
+				}
+			}
+		}
+	}
 	for _, cl := range g.con.Requires {
 		walk(cl.E)
 	}
